@@ -23,10 +23,6 @@ Lemma lt_incl_succ e c : wf_entry e -> (e < incl_entry c + 1 <-> fst (dec e) < N
 Proof. intros [H _]. unfold incl_entry, dec. cbn [fst]. lia. Qed.
 
 (* ---- a member cursor and what remains of its list ---- *)
-Definition remaining (l : list N) (c : cursor) : list N := skipn (c_pos c) l.
-
-Fixpoint drop_lt (id : N) (r : list N) : list N :=
-  match r with [] => [] | x :: r' => if x <? id then drop_lt id r' else r end.
 
 Lemma skipn_cons_ent l p : (p < length l)%nat -> skipn p l = ent l p :: skipn (S p) l.
 Proof.
@@ -90,22 +86,11 @@ Proof.
 Qed.
 
 (* ---- field cursors ---- *)
-Definition member := (list N * cursor)%type.
-Definition fcur := list member.
 Definition WFm (m : member) : Prop :=
   sortedN (fst m) /\ (forall x, In x (fst m) -> wf_entry x) /\ WF (fst m) (snd m).
 Definition m_remaining (m : member) : list N := remaining (fst m) (snd m).
 Definition fc_remaining (fc : fcur) : list N := concat (map m_remaining fc).
 
-Fixpoint fc_skip (id : N) (fc : fcur) : option fcur :=
-  match fc with
-  | [] => Some []
-  | (l, c) :: rest =>
-    match skip_to l c id, fc_skip id rest with
-    | Some c', Some rest' => Some ((l, c') :: rest')
-    | _, _ => None
-    end
-  end.
 
 Definition R (fc : fcur) (s : stream) : Prop := sorted s /\ Permutation s (map dec (fc_remaining fc)).
 
@@ -159,7 +144,6 @@ Proof.
 Qed.
 
 (* ---- the current entry of a field cursor is the head of the abstract stream ---- *)
-Definition fc_cur (fc : fcur) : N := fold_right (fun m acc => N.min (c_eid (snd m)) acc) NULLENTRY fc.
 Definition okey (e : N) : option N := if e =? NULLENTRY then None else Some (key (dec e)).
 
 Lemma m_remaining_head m : WFm m ->
